@@ -797,14 +797,16 @@ static void apply_body(int ri, int prefill, int variant, int copied) {
                 if (Ops::dumps(*copies[i]) != got[i]) { fail("copy-aliases-original", "a copy changed when the original was modified after the call"); ok = false; break; }
         }
         // geometry of path copies (result array empty variant only: same objects otherwise)
-        if (ok && !prefill) {
+        // quick tier: outlines of the first and the last copy only, and not for the copied-first cases (the deep
+        // dump, of which the outline is a deterministic function, is compared for every copy); thorough and
+        // replay: every copy of every case
+        bool full = R->thorough() || R->replaying();
+        if (ok && !prefill && !copies.empty() && (full || copied == 0)) {
             std::vector<GeoPoly> base;
             if (Ops::geometry(*e0, base)) {
                 R->count("apply_geometry_checks");
                 for (size_t i = 0; i < copies.size() && ok; i++) {
-                    // quick tier: outline of the first, middle and last copy only (the deep dump, of which the
-                    // outline is a deterministic function, is compared for every copy); thorough: every copy
-                    if (!R->thorough() && !R->replaying() && i != 0 && i != copies.size() / 2 && i + 1 != copies.size()) continue;
+                    if (!full && i != 0 && i + 1 != copies.size()) continue;
                     R->count("apply_copy_outlines_compared");
                     Vec2 v = vec_of[got[i]];
                     std::vector<GeoPoly> g;
